@@ -173,13 +173,22 @@ func runC14(env *Env, s Scenario) {
 	server.Addr = &net.TCPAddr{IP: net.IPv4(127, 0, 0, 1), Port: sc.Port}
 	dialed := ""
 	dials := 0
+	// a second connection for the retry after a refused Open (same transport object)
+	client2, server2 := simnet.Pipe(k, simnet.NetPlan{SegMode: "whole"}, simnet.NetPlan{SegMode: "whole"}, false)
+	client2.Addr, server2.Addr = client.Addr, server.Addr
+	srv2 := &peer.SSHServer{HostKey: hostKey, Users: srv.Users, AuthKeys: srv.AuthKeys, Done: make(chan struct{})}
+	srv2.Peer = peer.NewCLI([]*peer.Mode{{Name: "exec", Prompt: "srv#"}}, "exec", 1)
 	simhook.DialFn = func(network, a string) net.Conn {
 		dialed = network + " " + a
 		dials++
+		if dials > 1 {
+			return client2
+		}
 
 		return client
 	}
 	go srv.Serve(server)
+	go srv2.Serve(server2)
 	li, _ := logging.NewInstance()
 	pass := sc.Password
 	if sc.WrongPass {
@@ -215,11 +224,20 @@ func runC14(env *Env, s Scenario) {
 
 		return
 	}
-	var openErr error
+	var openErr, retryErr error
+	retried := false
 	var first []byte
 	done := env.Go("user", func() {
 		if !env.Call("Open", func() { openErr = tr.Open() }) || openErr != nil {
 			_ = client.Close()
+			if openErr != nil && !sc.Netconf {
+				// the caller tries again with the same transport object: the verdict must not change
+				retried = true
+				if env.Call("Open(retry)", func() { retryErr = tr.Open() }) && retryErr == nil {
+					env.Call("Close(retry)", func() { _ = tr.Close(false) })
+				}
+			}
+			_ = client2.Close()
 
 			return
 		}
@@ -229,6 +247,8 @@ func runC14(env *Env, s Scenario) {
 	out := k.Run(done, 60*time.Second, 10*time.Millisecond)
 	env.Finish(out)
 	_ = client.Close()
+	_ = client2.Close()
+	_ = server2.Close()
 	user, passwords, keys, requests, _, hsErr := srv.Snapshot()
 	env.Res.Shape = fmt.Sprintf("standard strict=%v kh=%s prior=%s auth=%s srvpass=%v srvkey=%v wrongpass=%v netconf=%v", sc.Strict, sc.KnownHosts, sc.Prior, sc.Auth, sc.SrvPass, sc.SrvKey, sc.WrongPass, sc.Netconf)
 	env.Res.SchedDigest = fmt.Sprintf("%016x", kernel.HashString(env.Res.Shape+sc.Host+sc.User))
@@ -253,6 +273,19 @@ func runC14(env *Env, s Scenario) {
 			clause = "connected-without-valid-credentials"
 		}
 		env.Fail(clause, "", "Open returned %v; strict=%v known-hosts=%s auth=%s => expected success=%v", openErr, sc.Strict, sc.KnownHosts, sc.Auth, want)
+	}
+	if retried {
+		env.Probe("open-retried-on-the-same-transport")
+		if retryErr == nil && !want {
+			clause := "connected-despite-host-key-policy"
+			if !(sc.Strict && sc.KnownHosts != "has") {
+				clause = "connected-without-valid-credentials"
+			}
+			env.Fail(clause, "retry", "the first Open was refused (%v) but a second Open on the same transport connected; strict=%v known-hosts=%s", openErr, sc.Strict, sc.KnownHosts)
+		}
+		if _, pw2, _, _, _, _ := srv2.Snapshot(); sc.Strict && sc.KnownHosts != "has" && len(pw2) > 0 {
+			env.Fail("password-offered-to-unverified-host", "retry", "the retry offered the password although the host key could not be verified")
+		}
 	}
 	if sc.Strict && sc.KnownHosts != "has" {
 		// the connection must have been refused before any credential was offered
